@@ -2347,7 +2347,7 @@ def c12_extract(ctx, ndir, files, alphabet=b"/.a"):
     ex.run_all(setup, body, on_path)
 
 
-def c12_positive(ctx, kind):
+def c12_positive(ctx, kind, pre=False):
     """the positive half at the level of file-system calls: for a benign entry /<x><y> (two symbolic letters) whose extraction succeeds, the calls
     made are exactly the ones that create that entry at target+path with the archived content / permission bits / link target"""
     import intrinsics3
@@ -2365,7 +2365,11 @@ def c12_positive(ctx, kind):
     def body(e, inp):
         e.solver.add(z3.ULE(inp["perm"], 0o7777))
         intrinsics3.FS[0] = FsLog(b"/t")
-        hdr = header([index_entry(tag("RPMTAG_DIRNAMES"), index_data("StringArray", VecV([string(b"/")])), 0)], [])
+        dnames = [string(b"/")]
+        if pre:
+            # the entry's own path is also a directory name of the package (it has entries below it): extract pre-creates it
+            dnames.append(string([z3.BitVecVal(ord("/"), 8)] + list(inp["nm"]) + [z3.BitVecVal(ord("/"), 8)]))
+        hdr = header([index_entry(tag("RPMTAG_DIRNAMES"), index_data("StringArray", VecV(dnames)), 0)], [])
         pkg = package(header([], []), hdr, [])
         mode = {"regular": Adt("FileMode", "Regular", [Int(inp["perm"], "u16")]), "dir": Adt("FileMode", "Dir", [Int(inp["perm"], "u16")]),
                 "symlink": Adt("FileMode", "SymbolicLink", [Int(inp["perm"], "u16")])}[kind]
@@ -2401,7 +2405,7 @@ def c12_positive(ctx, kind):
             elif ops[-1][2] is None or e._check(ops[-1][2].e != z3.ZeroExt(16, inp["perm"])):
                 bad = "the permission bits set are not the archived ones"
         elif kind == "dir":
-            if names[-2:] != ["create_dir_all", "set_permissions"]:
+            if names[-1:] != ["set_permissions"] or "create_dir_all" not in names:
                 bad = "a directory is not created and given its mode at target+path (calls there: %s)" % names
             elif ops[-1][2] is None or e._check(ops[-1][2].e != z3.ZeroExt(16, inp["perm"])):
                 bad = "the permission bits set are not the archived ones"
@@ -2411,20 +2415,22 @@ def c12_positive(ctx, kind):
             elif len(ops[-1][2]) != 2 or e._check(z3.Not(z3.And([x == y for x, y in zip(ops[-1][2], inp["link"])]))):
                 bad = "the link target is not the archived one"
         if bad:
-            ctx.fail("extraction succeeds but " + bad, "Package::extract", kind="c12positive", fkind=kind)
+            ctx.fail("extraction succeeds but " + bad, "Package::extract", kind="c12positive", fkind=kind, pre=pre)
 
     ex.run_all(setup, body, on_path)
 
 
 for _k in ("regular", "dir", "symlink"):
     HARNESSES["c12_positive_" + _k] = (lambda k: (lambda ctx: c12_positive(ctx, k)))(_k)
+HARNESSES["c12_positive_dir_pre"] = lambda ctx: c12_positive(ctx, "dir", pre=True)
 
 
 def replay_c12(ctx, fl):
     import rpmbytes as RB
     if fl.get("kind") == "c12positive":
         k = fl["fkind"]
-        pk = RB.files_package([b"/"], [(0, b"xy", {"regular": 0o104751, "dir": 0o041750, "symlink": 0o120777}[k], b"lk" if k == "symlink" else b"", b"AB" if k == "regular" else b"")])
+        pk = RB.files_package([b"/", b"/xy/"] if fl.get("pre") else [b"/"],
+                              [(0, b"xy", {"regular": 0o104751, "dir": 0o041750, "symlink": 0o120777}[k], b"lk" if k == "symlink" else b"", b"AB" if k == "regular" else b"")])
         ans = ctx.native.ask("extract", pk.hex())
         want = {"regular": "xy:f:4751:4142", "dir": "xy:d:1750", "symlink": "xy:l:lk"}[k]
         return not (ans.startswith("ok") and want in ans), "real crate: a %s entry /xy extracted into a scratch directory -> %s (expected %s)" % (k, ans[:120], want)
